@@ -200,7 +200,12 @@ def harness_build(variant):
 def harness_gen(variant, stream, tier, seed, extra=None):
     """returns (cases, error)"""
     cmd = [harness_bin(variant), "gen", stream, "--tier", tier, "--seed", str(seed)] + (extra or [])
-    rc, out, err = run(cmd, cwd=HARNESS, timeout=7200)
+    limit = 1500 if tier == "quick" else 6 * 3600
+    try:
+        rc, out, err = run(cmd, cwd=HARNESS, timeout=limit)
+    except subprocess.TimeoutExpired as ex:
+        out = ex.stdout.decode() if isinstance(ex.stdout, bytes) else (ex.stdout or "")
+        rc, err = 124, "harness stream %s/%s did not finish within %d s" % (stream, variant, limit)
     cases = []
     for line in out.split("\n"):
         if line.strip():
@@ -230,13 +235,9 @@ def harness_exec(variant, ops):
     return res
 
 
-def model_run(cases):
-    """pipe case lines (id, op, in) to cldrv; returns {id: out | {'error':..}}"""
-    if not cases:
-        return {}
+def _model_chunk(lines):
     exe = os.path.join(LEAN, ".lake", "build", "bin", "cldrv")
-    inp = "\n".join(json.dumps({"id": c["id"], "op": c["op"], "in": c["in"]}) for c in cases) + "\n"
-    rc, out, err = run([exe], inp=inp, timeout=7200)
+    rc, out, err = run([exe], inp="\n".join(lines) + "\n", timeout=7200)
     res = {}
     for line in out.split("\n"):
         if line.strip():
@@ -244,6 +245,25 @@ def model_run(cases):
             res[j.get("id")] = j["out"] if "out" in j else {"error": j.get("error", "?")}
     if rc != 0:
         res["__driver_error__"] = {"error": "cldrv exit %d: %s" % (rc, err[-500:])}
+    return res
+
+
+def model_run(cases, workers=12):
+    """pipe case lines (id, op, in) to cldrv (several processes); returns {id: out | {'error':..}}"""
+    if not cases:
+        return {}
+    lines = [json.dumps({"id": c["id"], "op": c["op"], "in": c["in"]}) for c in cases]
+    # heavy lines first, round-robin over the workers
+    order = sorted(range(len(lines)), key=lambda i: -len(lines[i]))
+    n = max(1, min(workers, len(lines) // 4 or 1))
+    chunks = [[] for _ in range(n)]
+    for k, i in enumerate(order):
+        chunks[k % n].append(lines[i])
+    res = {}
+    from concurrent.futures import ThreadPoolExecutor
+    with ThreadPoolExecutor(max_workers=n) as ex:
+        for r in ex.map(_model_chunk, chunks):
+            res.update(r)
     return res
 
 
@@ -262,6 +282,17 @@ class Materialiser:
         k = self.key("g2mul", base, exp)
         if self.res is None:
             self.req[k] = {"id": k, "op": "g2mul", "in": {"base": base, "exp": exp}}
+            return None
+        r = self.res.get(k)
+        if r is None or "out" not in r:
+            return "materialise-error"
+        return r["out"]
+
+    def group(self, kind, exp):
+        """generator^exp in G1 / G2 / GT (exp hex) -> canonical bytes hex"""
+        k = "gen:%s:%s" % (kind, exp)
+        if self.res is None:
+            self.req[k] = {"id": k, "op": "genpow", "in": {"group": kind, "exp": exp}}
             return None
         r = self.res.get(k)
         if r is None or "out" not in r:
@@ -332,8 +363,8 @@ def write_replay(prop, seed, n, obj):
     return path
 
 
-def write_evidence(prop, ev):
-    d = os.path.join(VERIF, "evidence")
+def write_evidence(prop, ev, dev=False):
+    d = os.path.join(VERIF, "evidence", "dev") if dev else os.path.join(VERIF, "evidence")
     os.makedirs(d, exist_ok=True)
     with open(os.path.join(d, prop + ".json"), "w") as fh:
         json.dump(ev, fh, indent=1)
